@@ -22,7 +22,7 @@ RULE = (
     "state = (scan, dtype, label tuple, chunking composition | in-memory, batch blocks, value tuple); every state is "
     "run through the real groupby_scan (+compute); value tuples ride on a leading batch axis, plus a pure 1-D leg. "
     "Oracle: sequential per-group loop (np.nancumsum / carry-last-valid) at the positions of every group; positions with "
-    "a missing label are not compared; bfill(x) == reverse(ffill(reverse(x))) is checked differentially. "
+    "a missing label are not compared with the model, but chunked == in-memory is checked on ALL positions; bfill(x) == reverse(ffill(reverse(x))) is checked differentially. "
     "Non-trivial = >=2 chunks, some group has members in >=2 chunks and is absent from (or all-NaN in) some chunk between them "
     "or has a NaN run touching a boundary."
 )
@@ -109,6 +109,9 @@ def reference_scan(func, V, lab_tuple):
     return exp, mask
 
 
+_EAGER = {}
+
+
 def check_point(res, func, dtype, lab_tuple, chunks, bblocks, V, oned_row=None, labels_dask=False):
     import dask.array as da
 
@@ -155,6 +158,23 @@ def check_point(res, func, dtype, lab_tuple, chunks, bblocks, V, oned_row=None, 
     scope = np.broadcast_to(mask[None, :], exp.shape)
     rtol = 1e-6 if dtype == "float32" else 1e-12
     bad = e1.compare(obs, exp, scope, rtol=rtol)
+    if bad is None and chunks is not None and oned_row is None and missing:
+        # "the result is the same for in-memory and chunked inputs": also at positions whose label is missing, where the model
+        # says nothing, the chunked result must equal the in-memory result of the same call
+        key = (func, dtype, lab_tuple)
+        if key not in _EAGER:
+            if len(_EAGER) > 2000:
+                _EAGER.clear()
+            _EAGER[key] = e1.call_scan(V, labels, func=func)
+        eg = _EAGER[key]
+        if eg.kind == "ok":
+            bad2 = e1.compare(obs, np.asarray(eg.result), np.ones(obs.shape, dtype=bool), rtol=rtol)
+            if bad2 is not None:
+                res.outcomes["chunked-differs-from-eager"] += 1
+                row, pos = bad2
+                res.violate("scan-eager-vs-chunked", dict(case, values=V[row], position=pos), dict(chunked=obs[row]), dict(in_memory=np.asarray(eg.result)[row]),
+                            tags=dict(tags, kind="eager-vs-chunked"), size=size)
+                return None
     if bad is None:
         res.outcomes["ok"] += 1
         return obs
